@@ -101,7 +101,7 @@ def check(ck):
     ck.require(okk, "C11.3", "%s: idempotence guard" % q.fn(fs), "nothing is done when already stopped",
                "stop() has no idempotence guard on the stop flag: some of its steps run although the pool is already stopped", q.loc(fs, fs.node))
     flag = [n for n in gs.live_nodes() for c in node_calls(n) if dump(c.func) == "self._done_event.set"]
-    sput = [n for n in gs.live_nodes() for c in node_calls(n) if dump(c.func) == "self._queue.put"]
+    sput = [n for n in gs.live_nodes() for c in node_calls(n) if dump(c.func) in ("self._queue.put", "self._queue.put_nowait")]
     joins = [n for n in gs.live_nodes() for c in node_calls(n) if call_name(c) == "join" and isinstance(c.func.value, ast.Name)]
     clears = [n for n in gs.live_nodes() if n.kind == "stmt" and isinstance(n.ast, ast.Delete) and "_threads" in dump(n.ast)]
     drain = [n for n in gs.live_nodes() for c in node_calls(n) if dump(c.func) == "self.clear"]
@@ -116,6 +116,20 @@ def check(ck):
     loop = [n for n in gs.live_nodes() if n.kind == "for_body" and _thread_list(n, n.ast.iter) and n.id in ds[sput[0].id]]
     ck.require(bool(loop), "C11.3", "%s: one sentinel per registered thread" % q.fn(fs), "put inside `for _ in self._threads`",
                "stop() does not queue one wake-up sentinel per registered worker", q.loc(fs, sput[0]))
+    # the sentinel waits for room: a non-blocking put gives up at once on a full queue (the Full handler skips the remaining
+    # sentinels), although room appears as soon as a worker dequeues - the workers that got none never learn about the stop
+    from vlib.locks import queue_call_bounds
+    for sp in sput:
+        for c in node_calls(sp):
+            if dump(c.func) not in ("self._queue.put", "self._queue.put_nowait"):
+                continue
+            nb = dump(c.func).endswith("put_nowait")
+            if not nb:
+                blk, _tmo = queue_call_bounds(c)
+                nb = isinstance(blk, ast.Constant) and blk.value is False
+            ck.require(not nb, "C11.3", "%s: the sentinel put waits for room" % q.fn(fs), "blocking put (bounded by the pool timeout)",
+                       "`%s` does not wait: on a bounded queue that is full the remaining sentinels are dropped, idle workers with no "
+                       "timeout never wake up and stop() waits for them forever" % dump(c)[:50], q.loc(fs, sp))
     for jn in joins:
         ck.require("__lock" not in cl.held(fs, jn), "C11.3", "%s: `%s` outside the pool lock" % (q.fn(fs), q.stmt_text(jn)), "joined without the lock",
                    "worker threads are joined while holding the pool lock: a worker that needs the lock to finish can never be joined", q.loc(fs, jn))
@@ -151,7 +165,16 @@ def check(ck):
 
     # ---- C11.7 no unbounded queue wait in stop() / clear() --------------------------------------------------------------
     n7 = 0
+    from vlib.locks import queue_call_bounds as _qcb
     for f7 in (fs, fc):
+        g7 = cfg_of(f7)
+        for n in g7.live_nodes():
+            for c in node_calls(n):
+                if dump(c.func) in ("self._queue.get", "self._queue.put"):
+                    b7, _t7 = _qcb(c)
+                    if isinstance(b7, ast.Constant) and b7.value is False:
+                        n7 += 1
+                        ck.ok("C11.7", "%s: `%s` is bounded" % (q.fn(f7), dump(c.func)), "non-blocking form (block=False)", q.loc(f7, n))
         for (n, c, kind) in cl.blocking_calls(f7):
             if not kind.startswith(("Queue.put", "Queue.get")):
                 continue
